@@ -72,11 +72,242 @@ func runC09(c *core.Ctx) error {
 			checkBits(c, r2, fx.Name+"/"+strings.TrimPrefix(fn.Name(), "send")+"/client", fn, sec)
 		}
 		checkCarriers(c, r4, ex, fx)
+		checkCredentialVerbatim(c, r4, ex, fx)
 	}
 	r1.Note("operations with security: %d", nSec)
 
 	checkSecurityTemplates(c, r3)
 	checkSecurityOverride(c, r5)
+	return checkSecurityGeneratorState(c)
+}
+
+// checkCredentialVerbatim (R09.4): the credential travels unchanged: on the client the value written to the carrier
+// is the token's field itself, on the server the token's field is assigned the carrier's value itself. Any call in
+// between (escaping, trimming, case folding) on one side only makes the two sides disagree.
+func checkCredentialVerbatim(c *core.Ctx, r *core.Rule, ex *core.Expansion, fx *core.Fixture) {
+	p := ex.Prog.PkgBy[fx.PkgPath]
+	if p == nil {
+		return
+	}
+	isTokenField := func(e ast.Expr) bool {
+		sel, ok := e.(*ast.SelectorExpr)
+		if !ok {
+			return false
+		}
+		id, ok := sel.X.(*ast.Ident)
+		return ok && id.Name == "t" && (sel.Sel.Name == "APIKey" || sel.Sel.Name == "Token" || sel.Sel.Name == "Username" || sel.Sel.Name == "Password")
+	}
+	hasCall := func(e ast.Expr) string {
+		found := ""
+		ast.Inspect(e, func(n ast.Node) bool {
+			if ce, ok := n.(*ast.CallExpr); ok && found == "" {
+				found = types.ExprString(ce.Fun)
+			}
+			return true
+		})
+		return found
+	}
+	for _, f := range p.Syntax {
+		for _, d := range f.Decls {
+			fd, ok := d.(*ast.FuncDecl)
+			if !ok || fd.Body == nil || fd.Recv == nil || !strings.HasPrefix(fd.Name.Name, "security") {
+				continue
+			}
+			side := astRecvName(fd.Recv.List[0].Type)
+			key := fmt.Sprintf("%s/%s.%s", fx.Name, side, fd.Name.Name)
+			ast.Inspect(fd.Body, func(n ast.Node) bool {
+				switch x := n.(type) {
+				case *ast.AssignStmt:
+					// server: t.APIKey = <carrier value>
+					if len(x.Lhs) == 1 && len(x.Rhs) == 1 && isTokenField(x.Lhs[0]) {
+						if fn := hasCall(x.Rhs[0]); fn != "" && !strings.HasSuffix(fn, ".Get") && !strings.HasSuffix(fn, ".Value") {
+							r.Fail("credential-transformed:"+key, c.Pos(x.Pos()), fmt.Sprintf("%s assigns the credential through %s(…) instead of taking the carrier's value as it is: the security handler sees another key than the client sent", fd.Name.Name, fn))
+						} else {
+							r.Pass(key + ": token field takes the carrier value verbatim")
+						}
+					}
+				case *ast.CallExpr:
+					// client: X.Set(name, <expr with t.Field>) / AddCookie(&http.Cookie{Value: <expr>}) / SetBasicAuth(t.U, t.P)
+					for _, a := range x.Args {
+						usesTok := false
+						ast.Inspect(a, func(m ast.Node) bool {
+							if e, ok := m.(ast.Expr); ok && isTokenField(e) {
+								usesTok = true
+							}
+							return true
+						})
+						if !usesTok {
+							continue
+						}
+						// the argument may concatenate a constant prefix ("Bearer " + t.Token); calls around the field are not allowed
+						bad := ""
+						ast.Inspect(a, func(m ast.Node) bool {
+							if ce, ok := m.(*ast.CallExpr); ok {
+								inner := false
+								for _, ia := range ce.Args {
+									ast.Inspect(ia, func(k ast.Node) bool {
+										if e, ok := k.(ast.Expr); ok && isTokenField(e) {
+											inner = true
+										}
+										return true
+									})
+								}
+								if inner {
+									bad = types.ExprString(ce.Fun)
+								}
+							}
+							return true
+						})
+						if bad != "" {
+							r.Fail("credential-transformed:"+key, c.Pos(a.Pos()), fmt.Sprintf("%s sends the credential through %s(…) instead of as it is: the server hands the transformed text to the security handler", fd.Name.Name, bad))
+						} else {
+							r.Pass(key + ": token field is written to the carrier verbatim")
+						}
+					}
+				}
+				return true
+			})
+		}
+	}
+}
+
+// checkSecurityGeneratorState (R09.6, S1):
+//  (a) the bit a scheme gets in a requirement mask is its position in the operation's Securities list: the index handed
+//      to bitset.Set in generateSecurities comes from the name→position map or from len(Securities)-1, never from a
+//      loop index over alternatives or schemes;
+//  (b) the OpenAPI parser keeps no per-operation state: outside Parse / the constructor its fields are only touched by
+//      keyed map inserts (reference caches, the operationId set), so nothing parsed for one operation can leak into the next.
+func checkSecurityGeneratorState(c *core.Ctx) error {
+	r := c.NewRule("R09.6", "S1", "requirement bits are scheme positions; the parser carries no per-operation state", 2)
+	prog, err := c.Program("./gen", "./openapi/parser")
+	if err != nil {
+		return err
+	}
+	// (a)
+	gs := prog.Func(pkgGen, "Generator.generateSecurities")
+	if gs == nil {
+		r.Undecided("anchor:generateSecurities", "-", "gen.(*Generator).generateSecurities not found")
+	} else {
+		n := 0
+		for _, fn := range core.AllFuncs(gs) {
+			for _, call := range core.Calls(fn) {
+				callee := call.Common().StaticCallee()
+				if callee == nil || callee.Name() != "Set" || !strings.HasSuffix(core.FuncPkgPath(callee), "/internal/bitset") {
+					continue
+				}
+				n++
+				idx := call.Common().Args[1]
+				var bad token.Pos
+				seen := map[ssa.Value]bool{}
+				var walk func(v ssa.Value, d int)
+				walk = func(v ssa.Value, d int) {
+					if seen[v] || d > 8 {
+						return
+					}
+					seen[v] = true
+					switch x := v.(type) {
+					case *ssa.Phi:
+						for _, e := range x.Edges {
+							walk(e, d+1)
+						}
+					case *ssa.Extract:
+						if _, isNext := x.Tuple.(*ssa.Next); isNext {
+							bad = x.Pos()
+							if bad == token.NoPos {
+								bad = call.Pos()
+							}
+							return
+						}
+						walk(x.Tuple, d+1)
+					case *ssa.UnOp:
+						// load of a local: follow the stores
+						if al, ok := x.X.(*ssa.Alloc); ok {
+							for _, ref := range *al.Referrers() {
+								if st, ok := ref.(*ssa.Store); ok && st.Addr == ssa.Value(al) {
+									walk(st.Val, d+1)
+								}
+							}
+						}
+						if fv, ok := x.X.(*ssa.FreeVar); ok {
+							// captured loop variable of the enclosing function
+							_ = fv
+							bad = call.Pos()
+						}
+					case *ssa.Convert:
+						walk(x.X, d+1)
+					case *ssa.BinOp, *ssa.Lookup, *ssa.Const:
+						// len(..)-1, indexes[name]
+					}
+				}
+				walk(idx, 0)
+				if bad != token.NoPos {
+					r.Fail("security-bit-from-loop-index", c.Pos(call.Pos()), "generateSecurities sets a requirement bit whose index comes from a loop index (alternative or scheme number) instead of the scheme's position in Securities: a conjunction {A, B} collapses to one bit and one credential satisfies it")
+				} else {
+					r.Pass("generateSecurities: requirement bit index = position of the scheme in Securities")
+				}
+			}
+		}
+		if n == 0 {
+			r.Undecided("anchor:bitset.Set", c.Pos(gs.Pos()), "no bitset.Set call found in generateSecurities")
+		}
+	}
+	// (b)
+	pp := prog.ByPath[core.Module+"/openapi/parser"]
+	if pp == nil {
+		r.Undecided("load:openapi/parser", "-", "package not loaded")
+		return nil
+	}
+	writes := 0
+	// per-operation scope: everything reachable from parseOp through static calls and closures
+	entry := prog.Func(core.Module+"/openapi/parser", "parser.parseOp")
+	if entry == nil {
+		r.Undecided("anchor:parser.parseOp", "-", "openapi/parser.(*parser).parseOp not found")
+		return nil
+	}
+	scope := map[*ssa.Function]bool{}
+	var reach func(f *ssa.Function)
+	reach = func(f *ssa.Function) {
+		if f == nil || scope[f] || f.Blocks == nil || core.FuncPkgPath(f) != core.Module+"/openapi/parser" {
+			return
+		}
+		scope[f] = true
+		for _, af := range f.AnonFuncs {
+			reach(af)
+		}
+		for _, call := range core.Calls(f) {
+			reach(call.Common().StaticCallee())
+		}
+	}
+	reach(entry)
+	r.Note("functions reachable from parser.parseOp inside openapi/parser: %d", len(scope))
+	for _, fn := range core.PkgFuncs(prog.SSA, pp) {
+		if !scope[fn] {
+			continue
+		}
+		for _, b := range fn.Blocks {
+			for _, in := range b.Instrs {
+				st, ok := in.(*ssa.Store)
+				if !ok {
+					continue
+				}
+				fa, ok := st.Addr.(*ssa.FieldAddr)
+				if !ok {
+					continue
+				}
+				owner := fa.X.Type().Underlying().(*types.Pointer).Elem()
+				n, ok := types.Unalias(owner).(*types.Named)
+				if !ok || n.Obj().Name() != "parser" {
+					continue
+				}
+				writes++
+				fname := owner.Underlying().(*types.Struct).Field(fa.Field).Name()
+				r.Fail("parser-state:"+fnKey(fn)+":"+fname, c.Pos(st.Pos()), fmt.Sprintf("%s assigns parser.%s while operations are being parsed: what one operation computed (e.g. its own security override) is visible to the operations parsed after it", fn.Name(), fname))
+			}
+		}
+	}
+	if writes == 0 {
+		r.Pass(fmt.Sprintf("openapi/parser: none of the %d functions reachable from parseOp assigns a field of parser (only keyed map inserts)", len(scope)))
+	}
 	return nil
 }
 
